@@ -275,3 +275,32 @@ func dominatesReturns(in ssa.Instruction) (bool, token.Pos) {
 	}
 	return true, token.NoPos
 }
+
+// aggregateSingleStore: a struct-typed local written by exactly one whole-value store and otherwise
+// only read (directly or through field addresses); returns the stored value.
+func aggregateSingleStore(a *ssa.Alloc) (ssa.Value, bool) {
+	var val ssa.Value
+	n := 0
+	for _, r := range *a.Referrers() {
+		switch y := r.(type) {
+		case *ssa.Store:
+			if y.Addr != ssa.Value(a) {
+				return nil, false
+			}
+			n++
+			val = y.Val
+		case *ssa.UnOp, *ssa.DebugRef:
+		case *ssa.FieldAddr:
+			for _, u := range *y.Referrers() {
+				switch u.(type) {
+				case *ssa.UnOp, *ssa.DebugRef:
+				default:
+					return nil, false
+				}
+			}
+		default:
+			return nil, false
+		}
+	}
+	return val, n == 1
+}
